@@ -17,7 +17,9 @@ FUNCTIONS['kripke'] = ['Kripke.__init__', 'Kripke.labels', 'Kripke.states', 'Kri
 FUNCTIONS['ctl'] = ['_checkAtomicProposition', '_checkNot', '_checkEX', '_checkOr', '_checkStateFormula', '_checkEU', 'modelcheck']
 FUNCTIONS['rewrite'] = ['LNot'] + ['%s.get_equivalent_restricted_formula' % c for c in
                                    ('AtomicProposition', 'Not', 'A', 'E', 'X', 'F', 'G', 'Or', 'And', 'Imply', 'U', 'R')]
+FUNCTIONS['bdd'] = ['find_isomorph', 'BDDNode.__reset__', 'BDDNonTerminalNode.__reset__', 'BDDNonTerminalNode.__new__']
 PROPERTY_FUNCTIONS = {
+    'C16': FUNCTIONS['bdd'],
     'C05': FUNCTIONS['rewrite'],
     # own functions + the callee contracts the labelling relies on directly (their owners C13/C14 verify the rest)
     'C01': FUNCTIONS['ctl'] + ['Kripke.labels', 'Kripke.states', 'Kripke.next', 'Kripke.transitions_iter',
@@ -46,6 +48,11 @@ TRUSTED = {
             'clone() returns an equal tree (C11, bounded); formulas are identified with their trees',
             'CTL.A/CTL.E rewriting bodies (AU, ER need least-witness reasoning) and receiver-class differences (Lang) are NOT under proof: bounded only',
             'one verification per body: the receiver is any formula with the class tag and arity of the defining class'],
+    'C16': ['TB7: garbage collection / weak references are not modelled - the table invariant ranges over every node ever registered (stronger than "live"); '
+            'a collected node can only remove entries from the weak sets, which preserves uniqueness',
+            'TB8 (Bryant canonicity): "no two registered non-terminals share (var, low, high)" + reducedness + orderedness imply "equal function iff same root"; not proved here',
+            'object.__new__(cls) returns a new object of the non-terminal class, registered nowhere',
+            'BDDTerminalNode.__new__, apply/restrict/invert (C17) are not under proof: bounded only'],
     'C07': ['frame obligations cover the CTL labelling functions proved so far; LTL/CTL* call graphs bounded only'],
     'C19': ['safety obligations cover the CTL labelling functions proved so far; LTL/CTL* call graphs bounded only'],
 }
@@ -63,7 +70,7 @@ def build_engine(repo=None, timeout_ms=20000, seed=0):
         E.baseline_names = set()
     for k in contracts_graph.make():
         E.register(k, contracts_graph.FILE)
-    for modname in ('contracts_kripke', 'contracts_ctl', 'formula_sem'):
+    for modname in ('contracts_kripke', 'contracts_ctl', 'formula_sem', 'contracts_bdd'):
         mod = __import__('vf.pyvc.' + modname, fromlist=['install'])
         mod.install(E)
     return E
